@@ -1182,3 +1182,99 @@ func checkWhitespaceRule(r *Run, ga *GA) {
 	}
 	r.Check("c16.layout-rule", "rule:"+best, ga.prog.pos(ga.tab.RulePos[rule]), ok, fmt.Sprintf("the layout rule %s (used optionally %d times) matches %s, expected a repetition of whitespace characters only", best, bn, cs))
 }
+
+type valuePair struct{ nonNil, nilV bool }
+
+// operatorValuePairing: for each MatchOperator constant the grammar can put in
+// a MatchExpression, whether the node is built with a literal (Value != nil)
+// and/or without one.
+func (ga *GA) operatorValuePairing() map[string]valuePair {
+	info := ga.prog.Grammar.TypesInfo
+	out := map[string]valuePair{}
+	for n, fd := range ga.onOf {
+		if fd == nil || n.Kind != peg.Action {
+			continue
+		}
+		params := map[types.Object]string{}
+		for _, f := range fd.Type.Params.List {
+			for _, nm := range f.Names {
+				params[info.Defs[nm]] = nm.Name
+			}
+		}
+		ast.Inspect(fd.Body, func(x ast.Node) bool {
+			cl, ok := x.(*ast.CompositeLit)
+			if !ok {
+				return true
+			}
+			nn, ok := info.Types[cl].Type.(*types.Named)
+			if !ok || nn.Obj().Name() != "MatchExpression" {
+				return true
+			}
+			var ops []string
+			vp := valuePair{nilV: true}
+			for _, el := range cl.Elts {
+				kv, ok := el.(*ast.KeyValueExpr)
+				if !ok {
+					continue
+				}
+				v := ast.Unparen(kv.Value)
+				switch kv.Key.(*ast.Ident).Name {
+				case "Operator":
+					if ta, ok := v.(*ast.TypeAssertExpr); ok {
+						v = ast.Unparen(ta.X)
+					}
+					if id, ok := v.(*ast.Ident); ok {
+						if c, ok := info.Uses[id].(*types.Const); ok {
+							ops = append(ops, c.Name())
+						} else if pn, ok := params[info.Uses[id]]; ok {
+							if ln := ga.labelNode(n, pn); ln != nil {
+								for c := range ga.consts[ln] {
+									ops = append(ops, c) // "" marks a non-constant value
+								}
+							}
+						}
+					}
+				case "Value":
+					vp = valuePair{}
+					if id, ok := v.(*ast.Ident); ok && id.Name == "nil" {
+						vp.nilV = true
+						break
+					}
+					if ta, ok := v.(*ast.TypeAssertExpr); ok {
+						v = ast.Unparen(ta.X)
+					}
+					if id, ok := v.(*ast.Ident); ok {
+						if pn, ok := params[info.Uses[id]]; ok {
+							if ln := ga.labelNode(n, pn); ln != nil {
+								for t := range ga.types[ln] {
+									if t == "nil" || t == "?" {
+										vp.nilV = true
+									} else {
+										vp.nonNil = true
+									}
+								}
+								break
+							}
+						}
+					}
+					// anything else: assume both
+					if !vp.nilV && !vp.nonNil {
+						if u, ok := v.(*ast.UnaryExpr); ok && u.Op == token.AND {
+							vp.nonNil = true
+						} else {
+							vp = valuePair{true, true}
+						}
+					}
+				}
+			}
+			for _, op := range ops {
+				cur := out[op]
+				cur.nonNil = cur.nonNil || vp.nonNil
+				cur.nilV = cur.nilV || vp.nilV
+				out[op] = cur
+			}
+			return true
+		})
+	}
+	return out
+}
